@@ -252,6 +252,27 @@ pub fn worker(w: &mut Worker) {
             },
             Stmt::Return(Some("r5".into())),
         ]);
+        // recursion from inside a for body where the inner invocation leaves its loop by an early return
+        v.push(vec![
+            Stmt::For {
+                site: 8,
+                body: vec![
+                    Stmt::Emit(10),
+                    Stmt::If {
+                        conds: vec![Cond { site: 9, form: 2 }],
+                        bodies: vec![vec![Stmt::Call { func: 0, out: Some("y".into()), args: vec!["rec".into()], position: 0, id: 302 }]],
+                        else_body: None,
+                    },
+                    Stmt::If {
+                        conds: vec![Cond { site: 10, form: 2 }],
+                        bodies: vec![vec![Stmt::Return(Some("r6".into()))]],
+                        else_body: None,
+                    },
+                    Stmt::Emit(11),
+                ],
+            },
+            Stmt::Return(Some("r7".into())),
+        ]);
         v
     };
     let outer_bodies: Vec<Vec<Stmt>> = vec![
@@ -266,7 +287,7 @@ pub fn worker(w: &mut Worker) {
     for (ii, inner) in inner_bodies.iter().enumerate() {
         for (oi, outer) in outer_bodies.iter().enumerate() {
             for s0 in [false, true] {
-                if ii == 5 && !s0 {
+                if (ii == 5 || ii == 6) && !s0 {
                     // a plain (unscoped) function that calls itself from inside its own for body
                     // overwrites the array variable the outer loop is iterating over: that is a
                     // program that modifies the iterated array, outside the property
@@ -288,7 +309,13 @@ pub fn worker(w: &mut Worker) {
                             funcs: vec![Func { scoped: s0, body: inner.clone() }, Func { scoped: s1, body: outer.clone() }],
                             main,
                         };
-                        run_prog(w, &rig, &prog, (si + oi) % 4, devs, horizon + 2, hash64(&("two", ii, oi, s0, s1)));
+                        // the recursive bodies need an array with two elements, the recursion and an early
+                        // return in the inner invocation at the same time: four deviations
+                        let (d2, h2) = if ii >= 5 { (devs.max(4), horizon + 4) } else { (devs, horizon + 2) };
+                        if ii >= 5 && seq.len() > 1 && tier == Tier::Quick {
+                            continue;
+                        }
+                        run_prog(w, &rig, &prog, (si + oi) % 4, d2, h2, hash64(&("two", ii, oi, s0, s1)));
                     }
                 }
             }
